@@ -1,19 +1,35 @@
 /- GENERATED: instance obligations for one logic, discharged by kernel evaluation.
-   `X ⊆ known`: every failing row is a committed known finding (Ptx/Gen/Known.lean). -/
+   `S` = the logic with its DOCUMENTED tables (Ptx/Sem/Spec.lean); rules, closure, trunk and frames
+   are what the translator read off the code.  `X ⊆ known`: every failing row is a committed
+   known finding (Ptx/Gen/Known.lean, generated from known_findings.json). -/
 import Ptx.Gen.L_TFDE
 import Ptx.Gen.Known
 import Ptx.Sem.Subset
+import Ptx.Props.C01
+import Ptx.Gen.L_FDE
 namespace Ptx.Gen.Obl.TFDE
 open Ptx
 
-theorem tables_total : Gen.TFDE.tablesTotalB = true := by decide +kernel
-theorem rules_exact : subsetB Gen.TFDE.badRules (Known.badRules "TFDE") = true := by decide +kernel
-theorem rules_sound : subsetB Gen.TFDE.unsoundRules (Known.unsoundRules "TFDE") = true := by decide +kernel
-theorem rules_total : subsetB Gen.TFDE.missingRules (Known.missingRules "TFDE") = true := by decide +kernel
-theorem rules_local : Gen.TFDE.nonLocalRules = [] := by decide +kernel
-theorem closure_total : Gen.TFDE.closureTotalB = true := by decide +kernel
-theorem closure_exact : subsetB Gen.TFDE.badClosure (Known.badClosure "TFDE") = true := by decide +kernel
-theorem read_total : Gen.TFDE.readTotalB = true := by decide +kernel
-theorem read_exact : subsetB Gen.TFDE.badRead (Known.badRead "TFDE") = true := by decide +kernel
+/-- a modal / first-order extension has exactly the truth-functional tables of its base (FDE) -/
+theorem base_tables : Gen.TFDE.tables.sameTF Gen.FDE.tables = true := by decide +kernel
+theorem spec_defined : Gen.TFDE.specDefinedB = true := by decide +kernel
+theorem tables_spec : subsetB Gen.TFDE.tableDiff (Known.tableDiff "TFDE") = true := by decide +kernel
+theorem defined_ops : Gen.TFDE.tables.definedOpsBad = [] := by decide +kernel
+theorem tables_total : Gen.TFDE.sem.tablesTotalB = true := by decide +kernel
+theorem rules_exact : subsetB Gen.TFDE.sem.badRules (Known.badRules "TFDE") = true := by decide +kernel
+theorem rules_sound : subsetB Gen.TFDE.sem.unsoundRules (Known.unsoundRules "TFDE") = true := by decide +kernel
+theorem rules_total : subsetB Gen.TFDE.sem.missingRules (Known.missingRules "TFDE") = true := by decide +kernel
+theorem rules_local : Gen.TFDE.sem.nonLocalRules = [] := by decide +kernel
+theorem closure_total : Gen.TFDE.sem.closureTotalB = true := by decide +kernel
+theorem closure_exact : subsetB Gen.TFDE.sem.badClosure (Known.badClosure "TFDE") = true := by decide +kernel
+theorem read_total : Gen.TFDE.sem.readTotalB = true := by decide +kernel
+theorem read_exact : subsetB Gen.TFDE.sem.badRead (Known.badRead "TFDE") = true := by decide +kernel
+theorem sound_core : Gen.TFDE.sem.soundCoreB = true := by decide +kernel
+
+/-- C01 for this logic: a closed tableau reached by any legal derivation has no countermodel. -/
+theorem c01_valid_sound (arg : Argument) (t : Tableau)
+    (hd : Deriv Gen.TFDE.sem.soundPart.noQuantPart (trunk Gen.TFDE.sem arg) t) (hclosed : t.allClosed = true)
+    (M : Struct) (hM : M.Interp Gen.TFDE.sem) (e : Env M.D) (w0 : M.W) : ¬ Countermodel Gen.TFDE.sem M e w0 arg :=
+  Props.C01.C01_valid_sound_partial Gen.TFDE.sem sound_core arg t hd hclosed M hM e w0
 
 end Ptx.Gen.Obl.TFDE
